@@ -125,6 +125,24 @@ def _metadata_findings(mm, out, term_syntax, clustered=False):
             got = []
         if sorted(got) != want:
             bad.append(("variable-indices", f"variable_indices[{v!r}] = {got}, columns of the terms using it are {want}"))
+    # lookups are queries: a sequence of them (several terms at once, then single ones again) leaves the metadata as it was
+    snap = {repr(t): list(idx) for t, idx in spec.term_indices.items()}
+    ts = [t for t, _ in terms]
+    try:
+        for k in range(len(ts) - 1):
+            got = list(spec.get_term_indices([ts[k], ts[k + 1]]))
+            if sorted(got) != sorted(snap[repr(ts[k])] + snap[repr(ts[k + 1])]):  # (the identifiers are read as a formula: its own term order decides the order of the result)
+                bad.append(("get_term_indices(two terms)", f"get_term_indices([{ts[k]!r}, {ts[k + 1]!r}]) gives {got}, their columns are {snap[repr(ts[k])] + snap[repr(ts[k + 1])]}"))
+        if len(ts) >= 2:
+            spec.get_term_indices(list(reversed(ts)))
+    except Exception as e:
+        bad.append(("get_term_indices(two terms)", f"a lookup of several terms raised {type(e).__name__}: {e}"))
+    after = {repr(t): list(idx) for t, idx in spec.term_indices.items()}
+    if after != snap:
+        bad.append(("lookup-mutates-metadata", f"after looking several terms up at once term_indices changed from {snap} to {after}"))
+    for t, idx in terms:
+        if list(range(ncols))[spec.get_slice(t)] != snap[repr(t)] and not any(tag.startswith("get_slice(term object)") for tag, _ in bad):
+            bad.append(("lookup-mutates-metadata", f"after the lookups get_slice({t!r}) selects {list(range(ncols))[spec.get_slice(t)]}, its columns are {snap[repr(t)]}"))
     return bad
 
 
